@@ -435,6 +435,12 @@ func (e *Enc) frameGoals(st *State, exempt map[string][]Term) []frameGoal {
 					e.unsupported = "modifies " + p + ": " + err.Error()
 					return nil
 				}
+				if pt, ok := t.Underlying().(*types.Pointer); ok {
+					if at, ok := pt.Elem().Underlying().(*types.Array); ok {
+						targets["E:"+sortOf(at.Elem())] = append(targets["E:"+sortOf(at.Elem())], target{obj: v.T})
+						continue
+					}
+				}
 				sl := t.Underlying().(*types.Slice)
 				if isStructVal(sl.Elem()) {
 					ms := newModSet()
